@@ -101,6 +101,48 @@ fn child_main() {
     }
 }
 
+/// Hand-written aggregate templates over an UNALIASED table: `Aggregate(Project?(Filter?(Scan)))` is the only logical shape
+/// `PhysicalPlanner::try_extract_parquet_source` accepts, i.e. the only way into `MorselAggregateExec` (generic morsel path and
+/// its dense direct-address variant); sqlgen aliases every table (`t0 AS x1`), which plans the generic hash aggregate instead.
+/// Returns (sql, plan JSON in the Driver/SqlJson format, tags).
+fn gen_morsel_template(r: &mut Rng, cat: &Catalog) -> Option<(String, Value, Vec<String>)> {
+    let ti = r.below(cat.tables.len() as u64) as usize;
+    let t = &cat.tables[ti];
+    let ints: Vec<usize> = t.cols.iter().enumerate().filter(|(_, c)| matches!(c.cty.name(), "i64" | "i32") && !c.boundary).map(|(i, _)| i).collect();
+    if ints.is_empty() { return None; }
+    let col = |i: usize| t.cols[i].name.clone();
+    let shape = r.below(4);
+    let nkeys = match shape { 0 | 1 => 1, 2 => 0, _ => 2 };
+    let mut keys: Vec<usize> = vec![];
+    while keys.len() < nkeys.min(t.cols.len()) { let k = r.below(t.cols.len() as u64) as usize; if !keys.contains(&k) { keys.push(k); } }
+    // a single integer key is what the dense path serves: prefer it half of the time
+    if nkeys == 1 && r.chance(1, 2) { keys = vec![*r.pick(&ints)]; }
+    let mut sel: Vec<String> = keys.iter().map(|k| col(*k)).collect();
+    let mut aggs: Vec<Value> = vec![json!({"fn": "count_star", "arg": {"lit": null}, "distinct": false})];
+    sel.push("COUNT(*)".into());
+    if shape != 0 {
+        let a = *r.pick(&ints);
+        for f in ["sum", "min", "max", "count"] {
+            if r.chance(1, 2) { continue; }
+            sel.push(format!("{}({})", f.to_uppercase(), col(a)));
+            aggs.push(json!({"fn": f, "arg": {"col": a}, "distinct": false}));
+        }
+    }
+    let mut q = json!({"scan": ti});
+    let mut sql = format!("SELECT {} FROM {}", sel.join(", "), t.name);
+    if r.chance(1, 2) {
+        let w = *r.pick(&ints);
+        let (op, sym) = *r.pick(&[("le", "<="), ("gt", ">"), ("eq", "="), ("ne", "<>")]);
+        let lit = r.range(-1, 3);
+        sql.push_str(&format!(" WHERE {} {} {}", col(w), sym, if lit < 0 { format!("({})", lit) } else { lit.to_string() }));
+        q = json!({"filter": {"subs": [], "p": {"bin": [op, {"col": w}, {"lit": {"i": lit}}]}, "q": q}});
+    }
+    if !keys.is_empty() { sql.push_str(&format!(" GROUP BY {}", keys.iter().map(|k| col(*k)).collect::<Vec<_>>().join(", "))); }
+    let plan = json!({"agg": {"keys": keys.iter().map(|k| json!({"col": k})).collect::<Vec<_>>(), "aggs": aggs, "q": q}});
+    let tags = vec!["s:morsel_tpl".to_string(), format!("tpl:keys{}", keys.len())];
+    Some((sql, plan, tags))
+}
+
 fn spawn_all() -> Vec<Kid> {
     VARIANTS.iter().map(|(name, envs)| {
         let mut e: Vec<(String, String)> = envs.iter().map(|(k, v)| (k.to_string(), v.to_string())).collect();
@@ -145,6 +187,13 @@ pub fn main(o: &Opts) {
             let g = Gen::new(&mut qr, &cat, &gopts).generate(attempts);
             if g.engine_defined { continue; }
             let mut case = make_case("C04", &cat, &g.q, &g.tags, g.engine_defined, &[ExecCfg::mem_single()], true);
+            // two cases in five: an aggregate template that reaches MorselAggregateExec
+            if attempts % 5 < 2 {
+                match gen_morsel_template(&mut r, &cat) {
+                    Some((sql, plan, tags)) => { case["sql"] = json!(sql); case["plan"] = plan; case["tags"] = json!(tags); }
+                    None => continue,
+                }
+            }
             case["kind"] = json!("sql");
             case["files"] = json!(*r.pick(&[1u64, 1, 2, 3, 4]));
             case["rg"] = json!(*r.pick(&[1u64, 7, 64, 1024]));
